@@ -244,14 +244,22 @@ CrashKill ==   \* the process dies, the page cache survives
   /\ CrashCommon
   /\ UNCHANGED <<wal, walSync, fx, vidx, vdat, veof, unsynced, snap>>
 
-\* power loss: the durable image plus any subset of the still-volatile writes
+\* power loss: the durable image plus a subset of the still-volatile writes.
+\* Without the deviation "PowerReorder" the writes of one file reach the disk in program order (a file keeps a
+\* prefix of its volatile writes); with it any subset may survive -- the code never orders the data write of a
+\* variable interval before its index write with an fsync, so an index can survive without its data.
 SubSeqsOf(s) == {[i \in 1..Cardinality(I) |-> s[SetToSortSeq(I, LAMBDA a, b : a < b)[i]]] : I \in SUBSET (1..Len(s))}
+PrefixClosed(s, I) == \A i \in I : \A j \in 1..(i - 1) : s[j].f = s[i].f => j \in I
+SurvivorSets(s) == IF "PowerReorder" \in Deviations THEN SUBSET (1..Len(s))
+                   ELSE {I \in SUBSET (1..Len(s)) : PrefixClosed(s, I)}
 CrashPower ==
   /\ PowerLoss /\ CrashCommon
-  /\ \E ops \in SubSeqsOf(unsynced) :
-       LET p == ApplyOps(snap, ops) IN
+  /\ \E I \in SurvivorSets(unsynced) :
+       LET ops == [i \in 1..Cardinality(I) |-> unsynced[SetToSortSeq(I, LAMBDA a, b : a < b)[i]]]
+           p == ApplyOps(snap, ops) IN
        /\ SetPrim(p) /\ snap' = p /\ unsynced' = <<>>
-  /\ \E T \in SUBSET ((walSync + 1)..Len(wal)) :
+  /\ \E n \in walSync..Len(wal) :     \* the WAL is one append-only file: a prefix of its volatile fragments survives,
+       \E T \in (IF "PowerReorder" \in Deviations THEN SUBSET ((walSync + 1)..Len(wal)) ELSE {(walSync + 1)..n}) :
        /\ wal' = [i \in 1..Len(wal) |-> IF i <= walSync \/ i \in T THEN wal[i] ELSE FragHOLE]
        /\ walSync' = Len(wal)
 
